@@ -1071,6 +1071,19 @@ def m_hkdf_new(I, st, callee, argv, depth, t, dty):
     yield st, ('hkdf', App('Extract', s, bytes_of(st, argv[1])))
 
 
+@model('hkdf::Hkdf::extract')
+def m_hkdf_extract(I, st, callee, argv, depth, t, dty):
+    # Hkdf::extract(salt, ikm) = (PRK, Hkdf keyed with PRK): one-shot form of HkdfExtract::new / input_ikm / finalize
+    salt = freeze(st, argv[0])
+    rv = res_variant(salt)
+    s = Bytes(b'') if (rv and rv[0] == 'None') else (bytes_of(st, rv[1]) if rv else salt)
+    prk = App('Extract', s, bytes_of(st, argv[1]))
+    n = hash_out_len(callee.get('self_ty') or '')
+    if n:
+        terms.note_len(prk, n)
+    yield st, ('tuple', (prk, ('hkdf', prk)))
+
+
 def do_expand(I, st, hk, info, okm_ref, callee, t):
     h = deref_val(st, hk)
     prk = h[1] if (h is not None and h[0] == 'hkdf') else freeze(st, h)
